@@ -93,6 +93,9 @@ func runSolver(ctx context.Context, s solverSpec, file string, timeout int) (str
 
 func solveOne(ctxc *Ctx, o *Obligation, cfg solveCfg, idx int) {
 	t0 := time.Now()
+	if o.Kind == "effect" {
+		return
+	}
 	if o.Goal == "true" && !o.ExpectSat {
 		o.Status, o.Solver = "proved", "trivial"
 		return
